@@ -314,6 +314,8 @@ def m_iter(I, it):
 
 @model(builtins.next)
 def m_next(I, it, *default):
+    if type(it).__name__ == 'GhostCounter':
+        return _next_ghost(I, it, *default)
     m = I.cfg.models.get(('next', type(it)))
     if m is not None:
         return m(I, it, *default)
@@ -977,3 +979,108 @@ def m_inet_aton(I, s):
         return _socket.inet_aton(s)
     except Exception as e:
         _raise(I, e)
+
+# ----------------------------------------------------------------------------
+#   heapq: the algorithms of CPython's heapq.py (the C accelerator computes the
+#   same arrangement), with `<` on possibly symbolic items decided by the
+#   interpreter (tuples compare lexicographically)
+# ----------------------------------------------------------------------------
+import heapq as _heapq
+import ast as _ast_mod
+
+def _lt(I, a, b):
+    return I.truth(I.compare(_ast_mod.Lt(), a, b))
+
+def _siftdown(I, heap, startpos, pos):
+    newitem = heap[pos]
+    while pos > startpos:
+        parentpos = (pos - 1) >> 1
+        parent = heap[parentpos]
+        if _lt(I, newitem, parent):
+            heap[pos] = parent
+            pos = parentpos
+            continue
+        break
+    heap[pos] = newitem
+
+def _siftup(I, heap, pos):
+    endpos = len(heap)
+    startpos = pos
+    newitem = heap[pos]
+    childpos = 2 * pos + 1
+    while childpos < endpos:
+        rightpos = childpos + 1
+        if rightpos < endpos and not _lt(I, heap[childpos], heap[rightpos]):
+            childpos = rightpos
+        heap[pos] = heap[childpos]
+        pos = childpos
+        childpos = 2 * pos + 1
+    heap[pos] = newitem
+    _siftdown(I, heap, startpos, pos)
+
+@model(_heapq.heappush)
+def m_heappush(I, heap, item):
+    if not isinstance(heap, list):
+        _raise(I, TypeError("heap argument must be a list"))
+    heap.append(item)
+    _siftdown(I, heap, 0, len(heap) - 1)
+
+@model(_heapq.heappop)
+def m_heappop(I, heap):
+    if not isinstance(heap, list):
+        _raise(I, TypeError("heap argument must be a list"))
+    if not heap:
+        _raise(I, IndexError("index out of range"))
+    lastelt = heap.pop()
+    if heap:
+        returnitem = heap[0]
+        heap[0] = lastelt
+        _siftup(I, heap, 0)
+        return returnitem
+    return lastelt
+
+@model(_heapq.heapify)
+def m_heapify(I, x):
+    if not isinstance(x, list):
+        _raise(I, TypeError("heap argument must be a list"))
+    n = len(x)
+    for i in reversed(range(n // 2)):
+        _siftup(I, x, i)
+
+# ----------------------------------------------------------------------------
+#   itertools.count as a ghost counter
+# ----------------------------------------------------------------------------
+
+class GhostCounter(object):
+    """stands for itertools.count(value): next() returns value and adds one"""
+    def __init__(self, value):
+        self.value = value
+    def __repr__(self):
+        return "GhostCounter(%r)" % (self.value,)
+
+def _next_ghost(I, it, *default):
+    import ast
+    v = it.value
+    it.value = I.binop(ast.Add(), v, 1)
+    return v
+
+import math as _math
+
+@model(_math.floor)
+def m_floor(I, x):
+    if isinstance(x, SReal):
+        return mk_int(z3.ToInt(x.t))
+    if isinstance(x, (SInt, SBool)):
+        return x
+    try:
+        return _math.floor(x)
+    except Exception as e:
+        _raise(I, e)
+
+@model(_heapq._siftup)
+def m_siftup(I, heap, pos):
+    _siftup(I, heap, pos)
+
+@model(_heapq._siftdown)
+def m_siftdown(I, heap, startpos, pos):
+    _siftdown(I, heap, startpos, pos)
